@@ -22,8 +22,8 @@ CHECKS = {
         note="Trusted: Coq kernel; the regex translator gen_audit.py (reports by shape; state hidden behind a macro or inside a dependency is outside its reach); thread scheduling, allocator and dependencies' globals are runtime: K9 is testing.",
         design='§4 C17'),
     'C18': dict(technique="Coq proof, by induction over the tree and one cost lemma per converter, that the converter model's conversion counter (the formatter's own counter: the monad state) advances by at most 3 per syntax node for every input, request, configuration and nesting + K7: exact equality of the implementation's hooked counter with the model's on every case + the theorem's schema hypothesis evaluated on every parsed tree + growth oracle on nested families",
-        text="Proof. The model's monad carries the conversion counter, bumped at exactly the four hooked entry points, so cost and converter are one definition. Proved (CostBound.v; Properties/C18.v): C18_conversions_linear — for every width oracle, configuration, tree satisfying the schema clause wfc, and request, call (build t) r advances the counter by at most 3 * tree_size t, whatever the nesting depth; C18_root for whole documents; the cost calculus (C18_costs_bind, C18_costs_fold) and 'each stylist hands every child to the item converter at most once' (C18_flow/list/plain_once_per_child). wfc (MathDelimited starts/ends with an expression, Binary has no operator before its first operand, Args has its left parenthesis first) is the part of the parser's schema the bound depends on; the extracted wfc is evaluated on every tree the parser hands over and the model's tree_size is compared with the implementation's node count. Tie K7: the implementation's counter must EQUAL the model's on every case (a 'convert, fall back and convert again' edit shows on the first nested input). Oracle: conversions per syntax node (<= 3; measured max 1.0) over all streams and nested families at doubling depths. Rendering cost (the pretty crate) is outside the statement.",
-        note='Trusted: Coq kernel; the four cfg-guarded bump hooks (MANIFEST.hooks); rendering cost (pretty) is outside the statement as in the property.',
+        text="Proof. The model's monad carries the conversion counter, bumped at exactly the hooked entry points (convert_expr, convert_embedded_expr for a parenthesized child of markup/math, convert_pattern, convert_markup_impl, convert_math), so cost and converter are one definition. Proved (CostBound.v; Properties/C18.v): C18_conversions_linear — for every width oracle, configuration, tree satisfying the schema clause wfc, and request, call (build t) r advances the counter by at most 3 * tree_size t, whatever the nesting depth; C18_root for whole documents; the cost calculus (C18_costs_bind, C18_costs_fold) and 'each stylist hands every child to the item converter at most once' (C18_flow/list/plain_once_per_child). wfc (MathDelimited starts/ends with an expression, Binary has no operator before its first operand, Args has its left parenthesis first) is the part of the parser's schema the bound depends on; the extracted wfc is evaluated on every tree the parser hands over and the model's tree_size is compared with the implementation's node count. Tie K7: the implementation's counter must EQUAL the model's on every case (a 'convert, fall back and convert again' edit shows on the first nested input). Oracle: conversions per syntax node (<= 3; measured max 1.0) over all streams and nested families at doubling depths. Rendering cost (the pretty crate) is outside the statement.",
+        note='Trusted: Coq kernel; the five cfg-guarded bump hooks (MANIFEST.hooks); rendering cost (pretty) is outside the statement as in the property.',
         design='§4 C18'),
     'C19': dict(technique="Coq proofs (Permutation/StronglySorted of the model's stable insertion sort; gate lemmas) over the converter model's import_items_order + K5 with the flag on and off + item-sequence oracle",
         text="Proof of the ordering core. import_items_order is the order in which convert_import_items hands the item nodes to the list stylist; the flag occurs nowhere else in the converter model. Proved: off keeps source order (C19_off_keeps_source_order); on yields a permutation (C19_on_is_permutation) that is either the source order or sorted by source text (C19_on_sorted_or_kept); a comment anywhere in the item list, also inside an item, or a name bound twice keeps the order (C19_comment_keeps_order, C19_duplicate_keeps_order); the option defaults to off in Config and in the CLI (C19_default_off, over the regenerated CliGen.v). 'Nothing else differs' is decided by K5 with the flag on and off and by the oracle (item sequences input vs re-parsed output; text outside the item lists equal between on and off). Repair needed: 269647e (comment inside a renamed item).",
@@ -145,7 +145,7 @@ def main():
             "guard": "typstyle_verif",
             "enable": "RUSTFLAGS=\"--cfg typstyle_verif\" (set by vlib/common.py for the harness build; CARGO_TARGET_DIR=/verif/build/target)",
             "baseline_off_cmd": BASELINE,
-            "source_commits": ["5c43123"],
+            "source_commits": ["5c43123", "177dfe2"],
             "add_only": True,
         },
         "engines": [{
